@@ -157,6 +157,11 @@ def gen_cases(rng, tier):
       k = i // len(CLASSES)
       L = lg.gen_leaf(rng, cls=cls, n=n, cbounds=cbk, sign=['two', 'pos', 'neg'][k % 3])
       L['rate_clip'] = [(F(3, 2), F(2)), None, (F(2), None), (None, F(3, 2)), (F(1), F(1))][k % 5]
+      if k % 2 == 0:
+        # the rolling-horizon pattern: the constraints are read once, then the start (and other settings) are assigned through the
+        # setters, then the constraints are read again - they must be the constraints of the settings the device reports now
+        L['post_set'] = sorted(set(['start', 'sustainment'] + (L.get('post_set') or [])))
+        L['pwarm'] = True
     else:
       L = lg.gen_leaf(rng, cls=cls, n=n, cbounds=cbk)
     out.append({'leaf': L, 'points': gen_points(rng, L, budget)})
